@@ -277,6 +277,7 @@ func init() {
 			}
 		}
 		e := c11NewEnv(self, t, sid, peers, true, a[4] != "-")
+		e.setSilent()
 		e.co.CoordinatorTimeout = 30 * time.Millisecond
 		cm := e.cm
 		ctx, cancel := context.WithCancel(context.Background())
@@ -288,14 +289,6 @@ func init() {
 			rerr = e.co.Execute(ctx, []tss.TssProcess{e.proc}, make(chan interface{}, 4))
 		}()
 		note := ""
-		// the first attempt's subscriptions exist; from here on only newer ones are delivered to
-		if r := cm.waitUntil(c07Patience(), done, func() bool { return cm.subscriber(sid, comm.TssStartMsg) != nil }); r == "ok" {
-			cm.mu.Lock()
-			cm.mark = cm.next
-			cm.mu.Unlock()
-		} else {
-			note += ";first-" + r
-		}
 		nInit := func() int {
 			k := 0
 			for _, b := range cm.casts {
@@ -305,19 +298,17 @@ func init() {
 			}
 			return k
 		}
+		// conditions about what has EVER happened since the mark (monotone; cannot be missed by a late observer)
 		conds := map[string]func() bool{
-			"bully": func() bool { return cm.subscriber(sid, comm.CoordinatorSelectMsg) != nil },
-			"wait":  func() bool { return cm.subscriber(sid, comm.TssStartMsg) != nil },
+			"bully": func() bool { return cm.everSub(sid, comm.CoordinatorSelectMsg) },
+			"wait":  func() bool { return cm.mark > 0 && cm.everSub(sid, comm.TssStartMsg) },
 			"coord": func() bool { return nInit() > 0 },
 		}
 		if st := e.firstOf(done, conds, []string{"bully"}); st != "bully" {
 			note += ";noelection-" + st
-		} else {
-			e.co.CoordinatorTimeout = time.Hour
-			if a[4] != "-" {
-				if r := cm.deliver(sid, comm.CoordinatorSelectMsg, c07Peer(a[4]), []byte{}, done); r != "ok" {
-					note += ";select-" + r
-				}
+		} else if a[4] != "-" {
+			if r := e.claim(done, c07Peer(a[4]), 0); r != "ok" {
+				note += ";" + r
 			}
 		}
 		mode := e.firstOf(done, conds, []string{"coord", "wait"})
@@ -537,6 +528,9 @@ func init() {
 			runs = append(runs, s)
 		}
 		return "r=" + joinOr(rs, ",") + ";run=" + joinOr(runs, ",") + ";res=" + c07ErrClass(rerr) + note
+	}
+	for _, k := range []string{"C07.initiate", "C07.wait", "C07.retry2"} {
+		ops[k] = c07Escalating(ops[k])
 	}
 	gens["C07"] = genC07
 }
